@@ -183,7 +183,7 @@ pub fn main(ctx: &Ctx) -> ! {
         for m in META_VARIANTS {
             cases.push((TreeCfg::default(), format!("{p}{m}")));
             cases.push((TreeCfg { scripting: false, ..Default::default() }, format!("{p}{m}x")));
-            for f in ["<p>", "</head>", "<meta charset=y>", "<table>", "</template>"] {
+            for f in ["<p>", "</head>", "<meta charset=y>", "<table>", "</template>", "<tr>", "<td>x", "x", " y", "<!--c-->", "</table>z", "<col>", "<caption>"] {
                 cases.push((TreeCfg::default(), format!("{p}{m}{f}")));
             }
         }
